@@ -32,6 +32,60 @@ def expected_paths(P, adt_path, prefix, out, depth=0):
             expected_paths(P, inner, p, out, depth + 1)
 
 
+LIST_MUT = re.compile(r"Vec::(push|insert|extend|append|extend_from_slice|swap_remove|remove|retain|retain_mut|truncate|drain|pop|clear|dedup\w*|sort\w*|resize\w*|splice|split_off)$")
+
+
+def filtered_list(P, b, lst, gate):
+    """the list handed to the writer holds only accepted rows.  Two idioms are recognised (anything else fails closed):
+    (a) a fresh Vec whose only mutations are pushes control-dependent on the true edge of the gate;
+    (b) the incoming Vec filtered in place by retain(|row| gate(row)) (the closure returns the gate's result), nothing else."""
+    if lst[0] != "var":
+        return False, "not a local list: %s" % term_str(lst)[:60]
+    defs = b.var_defs(lst)
+    fresh = bool(defs) and all(mir.strip(d)[0] == "call" and re.search(r"Vec::(new|with_capacity)$", mir.strip(d)[1]) for d in defs)
+    muts = []
+    for bi, t in b.live_calls():
+        if not LIST_MUT.search(callee_name(t)):
+            continue
+        a0 = b.call_args(bi)[0]
+        base = a0
+        while base[0] in ("ref", "deref"):
+            base = base[1]
+        if base[:3] == lst[:3]:
+            muts.append((bi, callee_name(t).split("::")[-1]))
+    if fresh:
+        if not muts or any(m != "push" for _, m in muts):
+            return False, "fresh list mutated by %s" % sorted({m for _, m in muts})
+        for pb, _ in muts:
+            g = b.guards(pb, expand_vars=True)
+            if not any(mir.has_call(term, gate) and mir.cond_atoms(term, vals)[1] is True for s_, vals, term in g):
+                return False, "push at %s is not control-dependent on the accepting edge" % b.loc(pb)
+        return True, "fresh list, %d push site(s) on the accepting edge" % len(muts)
+    rets = [(bi, m) for bi, m in muts if m in ("retain", "retain_mut")]
+    if len(rets) == 1 and len(muts) == 1:
+        clos = mir.strip(b.call_args(rets[0][0])[1])
+        cb = P.bodies.get(clos[2]) if clos[0] == "aggr" and clos[1] == "closure" else None
+        if cb is not None:
+            okc = True
+            n = 0
+            for rb in cb.live_blocks():
+                for si, st in enumerate(cb.blocks[rb]["s"]):
+                    if st["lhs"] == [0]:
+                        n += 1
+                        v = cb.def_term(rb, si, st["rv"], 0, expand_vars=True)
+                        if mir.has_call(v, gate) is None or mir.strip(v)[0] != "call":
+                            okc = False
+                tt = cb.blocks[rb]["t"]
+                if tt["k"] == "call" and tt["dest"] == [0]:
+                    n += 1
+                    if not re.search(gate, callee_name(tt)):
+                        okc = False
+            if okc and n:
+                return True, "incoming list filtered in place by retain(gate)"
+        return False, "retain closure does not return the gate's verdict"
+    return False, "list is neither a fresh Vec filled on the accepting edge nor retain(gate): definitions %s, mutations %s" % ([term_str(d)[:40] for d in defs], sorted({m for _, m in muts}))
+
+
 def run(P, C, tier):
     C.explanation = (
         "Static decision of the structural part of C02: value-flow (taint) from the network receive calls to the six "
@@ -240,7 +294,7 @@ def run(P, C, tier):
             C.ob("R4", label + ":checked", ok1, s["loc"], det)
             C.ob("R4", label + ":author", s["user"].endswith("node.verifying_key"), s["loc"], "decision for the row's own author: %s" % s["user"])
             C.ob("R4", label + ":date", s["date"].endswith("node.mdate"), s["loc"], "decision at the row's own date: %s" % s["date"])
-            C.ob("R4", label + ":right", s["right"] == "var:required_right" or s["right"] == "phi", s["loc"], "right chosen by the author comparison (required_right)")
+            C.ob("R4", label + ":right", s["right"] == "var:right" or s["right"] == "phi", s["loc"], "right chosen by the author comparison (required_right)")
             if s["room_ineq"]:
                 C.ob("R4", label + ":leaving-room", s["room_key"] is not None and "old" in s["room_key"], s["loc"], "leaving-room decision keyed by %s" % s["room_key"])
             else:
@@ -282,7 +336,7 @@ def run(P, C, tier):
         for s in edge_sites:
             ok1, det = rights.check_refusal(pm, s["block"])
             C.ob("R6", "AddEdges:checked", ok1, s["loc"], det)
-            C.ob("R5", "AddEdges:author-date", s["user"].endswith("edge.verifying_key") and s["date"].endswith("edge.cdate"), s["loc"], "for the reference's author at its date")
+            C.ob("R5", "AddEdges:author-date", s["user"] == "‹Edge›.verifying_key" and s["date"] == "‹Edge›.cdate", s["loc"], "for the reference's author at its date")
             eq, other = author_eq_for(s)
             C.ob("R5", "edge-replace-right", eq is not None and any(x["right"] == "MutateAll" for x in edge_sites), s["loc"],
                  "replacing a reference written by another author requires the all-rows right: previous-author comparison present=%s" % (eq is not None))
@@ -308,23 +362,11 @@ def run(P, C, tier):
                 if s[0] == "aggr" and s[2].endswith("WriteMessage"):
                     var, wm = s[3], s
                     break
-            if var == "Nodes":
+            if var in ("Nodes", "Edges"):
                 lst = strip_refs(wm[4][0])
-                terms, bars = mir.flow_sources(pm, lst, r"$^")
-                pushes = [pb for pb, pt in pm.calls_to(r"Vec::push$") if field_path(pm.call_args(pb)[0]) == "write_nodes"]
-                ok = bool(pushes)
-                for pb in pushes:
-                    g = pm.guards(pb, expand_vars=True)
-                    ok = ok and any(mir.has_call(term, r"validate_node$") and mir.cond_atoms(term, vals)[1] is True for s, vals, term in g)
-                C.ob("R6", "AddNodes:write-list", ok and field_path(lst) == "write_nodes", pm.loc(bi), "WriteMessage::Nodes carries write_nodes, filled only under validate_node == true (%d push site)" % len(pushes))
-            elif var == "Edges":
-                lst = strip_refs(wm[4][0])
-                pushes = [pb for pb, pt in pm.calls_to(r"Vec::push$") if field_path(pm.call_args(pb)[0]) == "valid_edges"]
-                ok = bool(pushes)
-                for pb in pushes:
-                    g = pm.guards(pb, expand_vars=True)
-                    ok = ok and any(mir.has_call(term, r"Room::can$") and mir.cond_atoms(term, vals)[1] is True for s, vals, term in g)
-                C.ob("R6", "AddEdges:write-list", ok and field_path(lst) == "valid_edges", pm.loc(bi), "WriteMessage::Edges carries valid_edges, filled only under can == true")
+                gate = r"validate_node$" if var == "Nodes" else r"Room::can$"
+                ok, det = filtered_list(P, pm, lst, gate)
+                C.ob("R6", "Add%s:write-list" % var, ok, pm.loc(bi), "WriteMessage::%s carries a list that holds only rows accepted by %s: %s" % (var, gate.strip("$"), det))
             elif var in ("DeleteEdges", "DeleteNodes"):
                 lst = wm[4][0]
                 fnre = r"validate_edge_deletions$" if var == "DeleteEdges" else r"validate_node_deletions$"
